@@ -70,6 +70,9 @@ type Contract struct {
 }
 
 type GhostFunc struct {
+	// Macro: the body is expanded at every use and evaluated in the state of the use site (so it may read the heap
+	// and ghost variables, and old(M(..)) is M in the pre-state); parameters keep the Go types of the arguments
+	Macro   bool
 	Name    string
 	Params  []QVar
 	Ret     *TypeExpr
@@ -270,13 +273,20 @@ func (db *SpecDB) parseSpecFile(file string, pkgPath string) {
 					continue
 				}
 				db.GhostVars[name] = &GhostVar{name, te, pkgPath, copyMap(imports)}
-			case "func":
+			case "func", "macro":
 				g, err := parseGhostFunc(r2)
 				if err != nil {
 					errf(en.ln, "%v", err)
 					continue
 				}
 				g.File, g.PkgPath, g.Imports = file, pkgPath, copyMap(imports)
+				if w2 == "macro" {
+					g.Macro = true
+					if g.Body == nil {
+						errf(en.ln, "ghost macro %s needs a body", g.Name)
+						continue
+					}
+				}
 				if _, dup := db.Ghosts[g.Name]; dup {
 					errf(en.ln, "duplicate ghost func %s", g.Name)
 				}
